@@ -4,6 +4,7 @@ from common import *
 
 class Check:
     pid = None                # 'C12'
+    level = 'proof'           # level written into the evidence (must match MANIFEST)
     props_file = None         # 'Props_C12'
     driver = None             # harness/<driver>.c
     driver_srcs = ()          # /repo sources compiled with it
@@ -133,7 +134,7 @@ class Check:
         shutil.rmtree(os.path.join(OUT, self.pid), ignore_errors=True)
         violations = []          # (replay path, suffix)
         known_hits = {}
-        ev = dict(property_id=self.pid, tier=tier, seed=seed, level='proof', violations=0,
+        ev = dict(property_id=self.pid, tier=tier, seed=seed, level=self.level, violations=0,
                   assumptions=list(self.assumptions), coverage={})
         cov = ev['coverage']
         cov['trusted_base'] = list(self.trusted)
@@ -225,7 +226,7 @@ class Check:
             violations.append((p, ' no-failing-input-found'))
 
         # 6. evidence
-        cov.update(evaluations=len(cases), distinct_nontrivial=nontriv, rule=self.rule,
+        cov.update(evaluations=len(cases), programs=len(cases), distinct_nontrivial=nontriv, rule=self.rule,
                    traces_validated_against_impl=sum(1 for cs in cases if c.get(cs[0]) is not None and c.get(cs[0]) == m.get(cs[0])),
                    disagreements_checked=len(corr_bad) + len(prop_bad),
                    known_findings_reproduced=sorted(known_hits),
